@@ -19,6 +19,13 @@ def plan(*parts):
 
 PLANS = {
     "C02": plan(shards(20, 240)),
+    "C05": plan(shards(20, 240)),
+    "C13": plan(shards(20, 240)),
+    "C07": plan(shards(20, 240)),
+    "C15": plan(shards(20, 240)),
+    "C16": plan(shards(20, 240)),
+    "C17": plan(shards(20, 240)),
+    "C18": plan(shards(20, 240)),
 }
 
 LEVELS = {p: "exploration" for p in ["C%02d" % i for i in range(1, 19)]}
